@@ -33,6 +33,7 @@ MIN_NONTRIVIAL = {'quick': 150, 'thorough': 3000}
 ASSUMPTIONS = ['equal-activity bound: 1e-3 for every method, per component (relative to the larger of the two activities of that component; before round 6: relative to the largest activity of all); larger deviations of the Gibbs-minimising methods are classified by mechanism (component at the starting midpoint / Gibbs energy within 1e-6 of the polished minimum / beyond it) and reported under those keys', 'labels l/L are compared up to a swap when no top chemical is named',
                'equal-activity, default method: a mismatch is filed under the recorded finding (coefficients never iterated) only when the returned split is, within 1e-5 of the feed, the flash at the method\'s documented starting guess as recomputed by the harness from the inputs (otherwise suffix /not-the-starting-guess-flash, unrecorded)',
                'scale / history / call forms of the Gibbs-minimising methods: a difference is filed under the recorded trivial-solution findings when a compared result has two rows of one composition (1e-6 / 1e-4 in mole fraction) or when every compared result divides the pooled liquid at a Gibbs-energy change within the objective tolerance (1e-6 RT per mole of feed) with no mole fraction differing by more than 1e-2 between its rows',
+               'history, Gibbs-minimising methods, cache-hit class with a remembered point that differs from the judged one (within 1e-3 K and 1e-5 in every mole fraction): the result may differ from the fresh solver by more than the method bound (up to 1e-3 of the feed) when it is, within 1e-7 of the feed, the flash of the judged feed at the coefficients of the rows the last earlier call left (the documented resolution of the cache)',
                'no-split: a one-liquid result is reported only when the independent certificate lowers the Gibbs energy of mixing by more than 1e-4 RT per mole of feed (100 times the objective tolerance of the Gibbs-minimising methods); no certificate found = not shown unstable = held',
                'eutectic-model/activity-model: |x - eutectic(T, gamma_solute(x))| <= 1e-4 x + 2e-5 (the solubility iteration stops on a change of x below 1e-6)',
                'a probe (SLE._solve_x / SLE._update_solubility) that is not passed in a computed non-pure call, too few two-liquid results per LLE case or too many raises per shard make the run inconclusive (harness error), not violated']
@@ -312,6 +313,21 @@ def is_guess_flash(th, G, z, T, l, L, tol=1e-5):
     return bool(d <= tol)
 
 
+def remembered_flash(rem, flows):
+    """what reuse of remembered coefficients means, modelled: the flash of the judged feed (flows) at K = x_L / x_l of the two rows the last earlier call left on the stream (rem: the
+    library's own result at the remembered point), phase fraction by the harness's own bisection.  returns {'l', 'L'} in the units of flows, or None (a row empty, a chemical of the
+    feed missing from a row, no root inside (0, 1))"""
+    l, L = rem['l'], rem['L']
+    m = flows > 0
+    if not (l.sum() > 0 and L.sum() > 0) or (l[m] <= 0).any() or (L[m] <= 0).any(): return None
+    K = np.ones_like(flows); K[m] = (L[m] / L.sum()) / (l[m] / l.sum())
+    F = flows.sum(); z = flows / F
+    phi = rachford_rice(z, K)
+    if phi is None: return None
+    x = z / (1 + phi * (K - 1))
+    return {'l': x * (1 - phi) * F, 'L': K * x * phi * F}
+
+
 def same_composition(r, tol):
     l, L = r['l'], r['L']
     if not (l.sum() > 0 and L.sum() > 0): return False
@@ -492,6 +508,8 @@ def run_lle(case, rec):
         try:
             decreased = False
             Tprev = None
+            rem_rows = None          # the two rows that call left on the stream (None when it was a pure query, which remembers coefficients without writing rows)
+            dT_ = dz_ = None
             remembered = None        # (T, mole fractions, chemicals) of the last earlier call that reached the equilibrium code (two or more chemicals present): what the solver can remember
             for h in case['hist']:
                 f2 = flows * np.array(h['mult']) if h['mult'] else flows
@@ -506,7 +524,9 @@ def run_lle(case, rec):
                 lle.method = method
                 Tprev = T + h['dT']
                 p2 = f2 > 0
-                if p2.sum() > 1: remembered = (Tprev, f2[p2] / f2[p2].sum(), [i for i, v in zip(ids, f2) if v > 0])
+                if p2.sum() > 1:
+                    remembered = (Tprev, f2[p2] / f2[p2].sum(), [i for i, v in zip(ids, f2) if v > 0])
+                    rem_rows = None if h.get('query') else rows(s)
                 if 'top' in h and h['top'] != top: rec.hit('history:top-changed')
                 if h.get('kind'): rec.hit('history:last-call-' + h['kind'])
             if Tprev is not None and T < Tprev: decreased = True
@@ -547,6 +567,18 @@ def run_lle(case, rec):
         if not ok and free_labels(ids, flows, top):
             ok = np.allclose(rh['L'], l, rtol=0, atol=tol) and np.allclose(rh['l'], L, rtol=0, atol=tol)
         dev = float(min(np.abs(rh['l'] - l).max(), np.abs(rh['L'] - l).max()) / F)
+        if not ok and hsfx == '/cache-hit' and method != 'pseudo equilibrium' and rem_rows is not None and (dT_ > 0 or dz_ > 0):
+            # thorough run (seed 1): the remembered point is NOT the judged one but lies within the documented cache tolerances (1e-3 K, 1e-5 in every mole fraction; decided above from the
+            # generated inputs).  Reuse then means: the judged feed flashed at the coefficients of the remembered point - the stated resolution of the cache.  The lever rule amplifies a
+            # composition difference of 1e-5 into a larger difference of the split (witnesses: dz 8e-6 .. 1e-5 -> 1.0e-5 .. 3.7e-5 of the feed, just over the bound of 1e-5), so the bound in
+            # flows was tighter than that resolution.  Accepted only when the mechanism is confirmed: the returned rows ARE that flash (remembered_flash, from the rows the last earlier call
+            # left; witnesses agree to 1e-15 of the feed; bound 1e-7) and the difference from the fresh solver stays below 100 times the composition tolerance.  Gibbs-minimising methods only:
+            # their remembered coefficients are an equilibrium solved without memory; those of the default method depend on the call history (recorded finding, own keys).
+            with np.errstate(all='ignore'):
+                pred = remembered_flash(rem_rows, flows)
+            if pred is not None and dev <= 1e-3 and min(max(np.abs(pred['l'] - rh['l']).max(), np.abs(pred['L'] - rh['L']).max()),
+                                                        max(np.abs(pred['L'] - rh['l']).max(), np.abs(pred['l'] - rh['L']).max())) <= 1e-7 * F:
+                ok = True; rec.hit('history:cache-hit:flash-at-remembered-point-within-tolerances')
         ctag = 'use_cache' if case['use_cache'] else 'no-cache'
         rec.hit('history:' + ctag)
         rec.hit('history:' + mtag)
